@@ -746,7 +746,7 @@ impl Server {
       let charms = sat.charms();
 
       let address = if let Some(satpoint) = satpoint {
-        if satpoint.outpoint == unbound_outpoint() {
+        if Index::is_special_outpoint(satpoint.outpoint) {
           None
         } else {
           let tx = index
